@@ -27,6 +27,14 @@ func justiceLockTime(r *an.Run) {
 				o.Site("%s lease argument %s", s.String(), lease)
 				if lease != "0" {
 					premise = true
+					// the lock time the justice transaction needs is the one
+					// in the script: the lease argument is the channel's thaw
+					// height itself, selected once (a second assignment or an
+					// arithmetic step makes the canonical form a bare local)
+					if lc := nb.Canon(c.Args[3]); !reMatch(`^\$p0\.ThawHeight$`, lc) {
+						o.FailAt(nb.ID+"#lease-argument", s.Where(), "the to_remote script of the breached commitment is built with lease expiry %s, expected the channel's ThawHeight selected once under HasLeaseExpiration()", lc)
+					}
+					c04OperandsNotOverwritten(o, nb, c.Args[3], "lease expiry")
 				}
 				if id, ok := c.Args[3].(*ast.Ident); ok {
 					for _, as := range nb.Assigns(an.LocalNamed(id.Name), false) {
